@@ -112,6 +112,7 @@ structure Bus where
 
 /-- one `process_event(bus, ev)` in progress -/
 structure Act where
+  sel : List HId := []               -- ghost: the handlers selected when the activation began
   bus : BId
   ev : EId
   todo : List HId                    -- applicable handlers not yet scheduled, in order
